@@ -1201,10 +1201,9 @@ class PerturbedDroplet3D(PerturbedDropletBase):
     @property
     def volume_approx(self) -> float:
         """float: approximate volume to linear order in the perturbation"""
-        volume = spherical.volume_from_radius(self.radius, 3)
-        if len(self.amplitudes) > 0:
-            volume += self.amplitudes[0] * 2 * np.sqrt(np.pi) * self.radius**2
-        return volume
+        # the zeroth mode is not part of `amplitudes` and all higher harmonics integrate to
+        # zero over the sphere, so the volume does not change to linear order
+        return spherical.volume_from_radius(self.radius, 3)
 
 
 class PerturbedDroplet3DAxisSym(PerturbedDropletBase):
@@ -1275,10 +1274,9 @@ class PerturbedDroplet3DAxisSym(PerturbedDropletBase):
     @property
     def volume_approx(self) -> float:
         """float: approximate volume to linear order in the perturbation"""
-        volume = spherical.volume_from_radius(self.radius, 3)
-        if len(self.amplitudes) > 0:
-            volume += self.amplitudes[0] * 2 * np.sqrt(np.pi) * self.radius**2
-        return volume
+        # the zeroth mode is not part of `amplitudes` and all higher harmonics integrate to
+        # zero over the sphere, so the volume does not change to linear order
+        return spherical.volume_from_radius(self.radius, 3)
 
 
 def droplet_from_data(droplet_class: str, data: np.ndarray) -> DropletBase:
